@@ -5,8 +5,16 @@
    receiver's fields: a new field, or a new package-level variable (a pool, a cache, a scratch buffer), is state the
    model does not have, and the correspondence runs no longer justify the theorems. *)
 From Coq Require Import List String.
-From Mant Require Import Gen.Shapes Model.ShapesExpected.
+From Mant Require Import Gen.Shapes Model.ShapesExpected Gen.Wraps Model.WrapsExpected.
 
 Theorem C19_state_space : shapes_C19 = expected_C19.
 Proof. reflexivity. Qed.
 Print Assumptions C19_state_space.
+
+(* The models use unbounded numbers and write every wrap explicitly.  The places where the source computes in a
+   fixed-width integer type (non-constant +, -, *, <<, compound assignments, ++/--) or narrows an integer are
+   re-read on every run (go2coq wraps, go/types per package) and must be the ones the models were written against:
+   a new site is arithmetic the model does not wrap. *)
+Theorem C19_wrap_sites : wraps_C19 = expected_wraps_C19.
+Proof. reflexivity. Qed.
+Print Assumptions C19_wrap_sites.
